@@ -217,6 +217,7 @@ class Parser(object):
     def p_list(self, p):
         """
         list : LBRACK elements RBRACK
+             | LBRACK tuple_pairs RBRACK
         """
 
         p[0] = p[2]
@@ -242,13 +243,6 @@ class Parser(object):
         """
 
         p[0] = [p[1]]
-
-    def p_elements_tuple_pairs(self, p):
-        """
-        elements : tuple_pairs
-        """
-
-        p[0] = p[1]
 
     def p_element_expression(self, p):
         """
